@@ -443,7 +443,8 @@ def run_corr_case(ctx, case):
     # forecasts with *some* members missing or infinite: the ensemble statistic is that of
     # the members present (a mean with an infinite member is infinite: an incomplete
     # pair; a median may well be finite)
-    if ens.shape[1] >= 2 and len(obs) >= 8 and case.get("nullrows") is not None:
+    if ens.shape[1] >= 2 and len(obs) >= 8 and case.get("nullrows") is not None and \
+            (ctx.tier == "quick" or digest(obs) % 3 == 0):
         prs = np.random.default_rng(digest(obs, ens) % 2 ** 31 + 9)
         for what in ("some-members-missing", "one-member-infinite"):
             ens3 = ens.copy()
@@ -928,6 +929,11 @@ def run(ctx):
         ctx.evaluated()
         ctx.tag("binary:large")
         mx = int(10 ** rng.uniform(1, 6.5))
+        if it % 6 == 2:
+            # tables of billions of pairs (pixels of a satellite record): products of
+            # two totals do not fit 64-bit integers
+            mx = int(10 ** rng.uniform(9, 12))
+            ctx.tag("binary:billions-of-pairs")
         t = rng.integers(1, mx + 1, size=4)
         if it % 5 == 0:
             t[3] = t[1] * t[2] // max(1, t[0]) or 1
